@@ -9,8 +9,9 @@ Parties of every case
                    unchanged, same masked-or-not kind, landmarks/mask unchanged or rescaled with the shape,
                    zero mean, result = centred / statistic (numpy float64 recomputation), unit std / unit norm,
                    idempotence, zero scale refused or skipped, finite values;
-  Lean model     : `rebuild`, `rebuildCentres`, `normalizeV`, `normalizeImg`, `normalizeS` through the driver
-                   (exact rationals in, exact rationals out).
+  Lean model     : `rebuild` (mask resize in binary64), `rebuildCentres`, `normalizeV`, `normalizeImg`, `normalizeS`,
+                   `gradient2` / `gradientFlat`, `igo2`, `es2`, `gauss2`, `noOpS`, `daisyShape` through the driver
+                   (exact rationals in, exact rationals out), and the regenerated effect table with its obligations.
 """
 import json
 import math
@@ -22,54 +23,84 @@ from .common import fq, close
 PROP = "C18"
 INFO = dict(
     technique="Lean 4 proof (decorators ndfeature/imgfeature/winitfeature and rebuild_feature_image generically over "
-              "every array-level feature; the normalisers over Q with the scale statistic as a contract parameter; "
-              "buffer-level frame theorem for 'never modifies its input') + model/implementation correspondence and "
-              "an independent property oracle on every exported feature that imports in this environment",
-    level_text="Theorems over an executable model of menpo/feature/base.py and menpo.feature.normalize: for EVERY "
+              "every array-level feature; the size-changing branch in the code's own binary64 arithmetic, with the "
+              "rounding function modelled over Q and its standard error model proved; gradient, no_op, IGO, ES, "
+              "gaussian_filter and the DAISY size law inside the model; the normalisers over Q; invariants of arbitrary "
+              "feature sequences by induction; buffer-level frame theorems for 'never modifies its input') + a table of "
+              "observed effects of every exported feature regenerated from the live code on every run with decide "
+              "obligations + model/implementation correspondence and an independent property oracle on every "
+              "exported feature that imports in this environment",
+    level_text="Theorems over an executable model of menpo/feature/base.py and menpo/feature/features.py: for EVERY "
                "array-level feature f the decorated call on an image returns exactly f(image.pixels) as pixels (and "
-               "the same exception), keeps the masked-or-not kind, returns mask and landmarks unchanged when the "
-               "shape is kept and landmarks scaled by the shape ratio / mask resized (nearest source pixel within "
-               "half a pixel) when it is not; normalize = centred / statistic per channel or overall, zero mean in "
-               "every branch, unit variance resp. unit norm and idempotence under the contract sigma*sigma = var "
-               "resp. nu*nu = sum of squares, a zero statistic refused exactly when asked and skipped otherwise "
-               "without ever dividing by zero (repaired code), the coded mode='all' skip branch refuted by witness "
-               "and for every input (IndexError); masked images: masked pixels normalised, zeros outside, "
-               "annotations kept; no existing buffer is written by normalize or by the decorators.  Tied to /repo "
-               "by running every exported feature and compositions on Image/MaskedImage x 1-4 channels x "
-               "float32/float64 x masks x landmark groups and raw arrays, diffing kind/mask/landmarks/values "
-               "against the Lean driver, with the oracle deciding the property on the real code.",
+               "the same exception), independently of mask and landmarks, keeps the masked-or-not kind, returns mask and "
+               "landmarks unchanged when the shape is kept and landmarks scaled by the shape ratio / mask resized when "
+               "it is not - the resize modelled operation by operation in binary64 (rne over Q, |rne x - x| <= 2^-53 |x| "
+               "proved): np.round(n/o*o) = n for all extents, the sampled index is the nearest source pixel for all "
+               "extents 2 <= o, n < 2^20 (one of the two nearest at exact half-way positions), landmarks within 3*2^-53 "
+               "relative of the exact rescaling, the ceil variant refuted by witness; any sequence of decorated "
+               "features (feature of feature) gives the values of the same sequence on the raw array, keeps kind and "
+               "landmark groups, and writes no buffer that existed before it. Kernels inside the model: gradient "
+               "(np.gradient stencil, channel order n_dims*C, affine ramps -> constant slope, linearity, uint8/too-small "
+               "refusals), no_op (a copy), IGO/ES as functions of the gradient under the square-root contract (layout, "
+               "channel counts, cos^2+sin^2 = 1 at every pixel incl. double angles, ES in the unit disc, NaN exactly at "
+               "0/0), gaussian_filter under the kernel contract (constants kept everywhere, affine ramps kept away from "
+               "the borders), DAISY grid shape ceil((H-2r)/step). normalize = centred / statistic per channel or "
+               "overall, zero mean in every branch, unit variance resp. unit norm and idempotence (also up to the sign "
+               "of the scale) under the contract sigma*sigma = var resp. nu*nu = sum of squares, a zero statistic "
+               "(single-sample groups included) refused exactly when asked and skipped otherwise without ever dividing "
+               "by zero; masked images: masked pixels normalised, zeros outside, annotations kept. Tied to /repo by "
+               "(1) the regenerated effect table: every exported feature and seven compositions on live read-only "
+               "Image/MaskedImage: same kind out, same landmark groups, no attribute of the input changed, every "
+               "exported decorated feature known to the model; (2) running every exported feature and compositions on "
+               "Image/MaskedImage x 1-4 channels x float32/float64 (integer dtypes for the normalisers) x masks x "
+               "landmark groups x 2-D/3-D x C/Fortran/strided/read-only arrays x objects with a previous life, an "
+               "extent sweep over (old, new) pairs classified exactly by what binary64 does with them, diffing "
+               "kind/mask (every pixel)/landmarks/values against the Lean driver, with the oracle deciding the "
+               "property on the real code.",
     level_note="Trusted: Lean kernel; axioms propext/Classical.choice/Quot.sound; Python harness; driver parser. "
-               "Contract parameters (not verified, checked numerically each run): np.std / np.linalg.norm return "
-               "the non-negative square root of the exact variance / sum of squares of the centred data; "
-               "np.gradient, scipy.ndimage.gaussian_filter, the DAISY kernel and np.angle/np.median are the "
-               "abstract array-level feature f (deterministic library code).  Modelled, not verified: float "
-               "rounding (the model is exact arithmetic); scipy order-0 sampling = floor(x + 1/2).",
+               "Contract parameters (not verified, checked numerically each run): np.std / np.linalg.norm / np.abs of a "
+               "complex number return the non-negative square root of the exact variance / sum of squares / g_y^2+g_x^2; "
+               "np.angle, sin, cos satisfy sin = g_x/|g|, cos = g_y/|g|, angle(0) = 0 and the double-angle identities; "
+               "scipy's gaussian kernel is symmetric and sums to one (its weights are read off the public API each run "
+               "and handed to the model); the DAISY descriptor values are the abstract array-level feature f "
+               "(deterministic library code), only their grid shape is modelled. Modelled, not verified: float rounding "
+               "of the feature VALUES (the model is exact arithmetic; the shape/sampling chain of the mask resize is "
+               "modelled in binary64); scipy order-0 sampling = floor(x + 1/2) after clamping (mode 'nearest').",
     rule="a case = one feature (with drawn parameters) applied to one image (kind, dtype, channels, shape, mask, "
-         "landmark groups) and to its raw pixel array; distinct = distinct (feature, parameters, image); "
-         "non-trivial = the image is not constant and carries a mask or landmarks, or the case exercises a "
-         "zero-scale branch of a normaliser",
-    partial=["the numerical kernels (np.gradient, scipy gaussian_filter, DAISY, IGO/ES trigonometry) are the abstract "
-             "feature f of the wrapper theorems: only the decorators and the normalisers are proved (DESIGN section 9)",
-             "mask content after a size-changing feature is specified per pixel only away from exact half-way "
-             "sampling positions and for extents >= 2 (output or input extent 1 makes the code sample at NaN/inf "
-             "coordinates: shape and kind are still checked, content only by the uniform-neighbourhood oracle)",
-             "normalize called directly on a MaskedImage normalises the image's data = its masked pixels (zeros "
-             "outside): agreement with the raw array is stated and checked on that data",
+         "landmark groups, memory layout, previous life) and to its raw pixel array; distinct = distinct (feature, "
+         "parameters, image); non-trivial = the image is not constant and carries a mask or landmarks, or the case "
+         "exercises a zero-scale branch of a normaliser",
+    partial=["DAISY descriptor VALUES (menpo/external/skimage/_daisy.py: orientation histograms, ring sampling, "
+             "l1/l2/daisy normalisation) remain the abstract feature f of the wrapper theorems; its grid shape and "
+             "channel count are modelled and compared on every case",
+             "square roots and trigonometry are contract parameters: the model receives numpy's sqrt of its own exact "
+             "variance / sum of squares / squared gradient magnitude and the gaussian weights scipy uses (symmetry and "
+             "unit sum checked numerically on every run); feature values are compared to 1e-9 (float32: 2e-4)",
+             "an axis of extent 1 (old or new) makes the coded mask resize sample at NaN/inf coordinates: shape and "
+             "kind are proved and checked, the mask content on such an axis only by the uniform-neighbourhood oracle",
              "dsift / fast_dsift / vector_128_dsift / hellinger_vector_128_dsift (the only exported @winitfeature "
              "features) do not import here (cyvlfeat missing): winitfeature is proved generically and exercised "
              "with a synthetic window feature through the real decorator",
-             "std / norm are irrational: the model receives sqrt of its own exact variance as the contract value"],
+             "sum_channels (menpo.feature.visualize, not one of the property's features) is covered by the wrapper "
+             "theorems, the effect table and the oracle only; the theorems about the numerical kernels are stated for "
+             "2-D images, their N-D variants on flat data (3-D gradient and gaussian_filter) are tied to them by a "
+             "per-case equality check in the driver and to the code by the correspondence"],
     assumptions=["numpy float64 arithmetic on small dyadic inputs is accurate to 1e-12 relative",
-                 "features are deterministic functions of their input array"],
+                 "features are deterministic functions of their input array",
+                 "numpy's float64 division / multiplication / subtraction / addition round to nearest even (IEEE 754), "
+                 "as the model's rne does; validated by the extent sweep on every run"],
     design_ref="DESIGN.md section 6, C18")
-IMPORTS = ["MenpoModel.Props.C18"]
+IMPORTS = ["MenpoModel.Props.C18", "MenpoModel.GenProps.C18"]
+TARGETS = ["MenpoModel.Props.C18", "MenpoModel.Drive.C18", "MenpoModel.GenProps.C18"]
 THEOREMS = [
+    "MenpoModel.GenProps.C18.featureRows_ok", "MenpoModel.GenProps.C18.featureRows_cover",
+    "MenpoModel.GenProps.C18.liveExported_known",
     "MenpoModel.C18.ndfeature_agrees", "MenpoModel.C18.ndfeature_error_agrees", "MenpoModel.C18.imgfeature_agrees",
     "MenpoModel.C18.winitfeature_agrees", "MenpoModel.C18.ndfeature_total",
     "MenpoModel.C18.feature_keeps_kind", "MenpoModel.C18.feature_same_size_keeps_annotations",
     "MenpoModel.C18.feature_new_size_rescales", "MenpoModel.C18.srcAxis_nearest", "MenpoModel.C18.srcAxis_same",
     "MenpoModel.C18.scaleLms_keys", "MenpoModel.C18.scaleLms_points", "MenpoModel.C18.scalePt_2d",
-    "MenpoModel.C18.winit_annotations",
+    "MenpoModel.C18.winit_annotations", "MenpoModel.C18.winit_landmark_on_grid",
     "MenpoModel.C18.normalize_per_channel_spec", "MenpoModel.C18.normalize_all_spec",
     "MenpoModel.C18.normalize_zero_mean_per_channel", "MenpoModel.C18.normalize_zero_mean_all",
     "MenpoModel.C18.normalize_std_unit_all", "MenpoModel.C18.normalize_norm_unit_all",
@@ -85,6 +116,32 @@ THEOREMS = [
     "MenpoModel.C18.ndfeature_compose_pixels", "MenpoModel.C18.landmarks_compose_2d",
     "MenpoModel.C18.normalize_input_untouched", "MenpoModel.C18.wrapper_input_untouched",
     "MenpoModel.C18.normalizeS_frame",
+    # Part D: the numerical kernels inside the model
+    "MenpoModel.C18.gradient_errors", "MenpoModel.C18.gradient_channel_count", "MenpoModel.C18.gradient_channel_order",
+    "MenpoModel.C18.gradient_shape", "MenpoModel.C18.gradient_on_image", "MenpoModel.C18.gradient_ramp",
+    "MenpoModel.C18.gradient_linear", "MenpoModel.C18.gradient_stencil",
+    "MenpoModel.C18.no_op_on_image", "MenpoModel.C18.no_op_copies", "MenpoModel.C18.noOpS_frame",
+    "MenpoModel.C18.unitDir_unit", "MenpoModel.C18.unitDir_double_unit", "MenpoModel.C18.igo_layout",
+    "MenpoModel.C18.igo_channel_count", "MenpoModel.C18.igo_error", "MenpoModel.C18.igo_pixel_unit",
+    "MenpoModel.C18.igo_shape", "MenpoModel.C18.igo_on_image", "MenpoModel.C18.igo_es_refuse_non2d",
+    "MenpoModel.C18.median_nonneg", "MenpoModel.C18.es_pixel_bounded", "MenpoModel.C18.es_nan_iff",
+    "MenpoModel.C18.es_layout", "MenpoModel.C18.es_channel_count",
+    "MenpoModel.C18.corr1_const", "MenpoModel.C18.corr1_affine_interior", "MenpoModel.C18.gauss_const",
+    "MenpoModel.C18.gauss_ramp_interior", "MenpoModel.C18.gauss_shape", "MenpoModel.C18.gauss_on_image",
+    "MenpoModel.C18.daisy_extent", "MenpoModel.C18.daisy_annotations",
+    # Part E: feature of feature
+    "MenpoModel.C18.ndfeature_ignores_annotations", "MenpoModel.C18.feature_seq_agrees", "MenpoModel.C18.feature_seq_kind_and_groups",
+    "MenpoModel.C18.feature_seq_same_size", "MenpoModel.C18.feature_seq_input_untouched",
+    "MenpoModel.C18.feature_seq_reads",
+    # Part F: binary64
+    "MenpoModel.C18.rne_rel_err", "MenpoModel.C18.scaledExtent_close", "MenpoModel.C18.tmplExt_round_exact",
+    "MenpoModel.C18.rescale_variant_refuted", "MenpoModel.C18.posF_close", "MenpoModel.C18.srcF_near",
+    "MenpoModel.C18.srcF_eq_spec", "MenpoModel.C18.srcF_tie", "MenpoModel.C18.resizeMask_2d",
+    "MenpoModel.C18.resizeMask_2d_nearest",
+    "MenpoModel.C18.landmark_scale_binary64",
+    # Part G: normalisers on degenerate data, idempotence up to sign
+    "MenpoModel.C18.normalize_single_sample_per_channel", "MenpoModel.C18.normalize_single_sample_all",
+    "MenpoModel.C18.normalize_std_idempotent_up_to_sign", "MenpoModel.C18.normalize_norm_idempotent_up_to_sign",
 ]
 
 NORMALISERS = ("normalize", "normalize_std", "normalize_norm", "normalize_var")
@@ -110,6 +167,18 @@ def _synthetic():
     def syn_upsample(pixels, ky=2, kx=2):
         return np.repeat(np.repeat(pixels, ky, axis=1), kx, axis=2)
 
+    @ndfeature
+    def syn_resample(pixels, nh=2, nw=2):
+        # index resampling to (nh, nw) by the exact integer rule (cheap stand-in for a size-changing feature:
+        # the decorator only looks at the shape of what comes back)
+        def idx(o, n):
+            return [min(o - 1, (2 * i * (o - 1) + (n - 1)) // (2 * (n - 1))) if n > 1 else 0 for i in range(n)]
+        return pixels[:, idx(pixels.shape[1], nh)][:, :, idx(pixels.shape[2], nw)] + 0.25
+
+    @ndfeature
+    def syn_subsample3(pixels, sz=1, sy=2, sx=1):
+        return pixels[:, ::sz, ::sy, ::sx] * 0.5
+
     @winitfeature
     def syn_window(pixels, sv=2, sh=2, r0=1, c0=1):
         rows = np.arange(r0, pixels.shape[1], sv)
@@ -117,7 +186,8 @@ def _synthetic():
         centres = np.stack(np.meshgrid(rows, cols, indexing="ij"), axis=-1)
         return pixels[:, centres[..., 0], centres[..., 1]] - 0.5, centres
 
-    return dict(syn_subsample=syn_subsample, syn_crop=syn_crop, syn_upsample=syn_upsample, syn_window=syn_window)
+    return dict(syn_subsample=syn_subsample, syn_crop=syn_crop, syn_upsample=syn_upsample, syn_window=syn_window,
+                syn_resample=syn_resample, syn_subsample3=syn_subsample3)
 
 
 _SYN = {}
@@ -191,6 +261,9 @@ def gen_mask(rng, h, w, flavour):
         return [[True] * w for _ in range(h)]
     if flavour == "all-false":
         return [[False] * w for _ in range(h)]
+    if flavour == "one":
+        i, j = rng.randrange(h), rng.randrange(w)
+        return [[(a, b) == (i, j) for b in range(w)] for a in range(h)]
     if flavour == "block":
         r0, r1 = sorted((rng.randint(0, h), rng.randint(0, h)))
         c0, c1 = sorted((rng.randint(0, w), rng.randint(0, w)))
@@ -209,11 +282,20 @@ def gen_lms(rng, h, w):
 
 
 def build_image(spec):
+    """the image of a case spec.  Optional keys: "history" (a previous life of the object: copy | converted from the
+    other kind | pickled), "readonly" (every buffer the caller owns is made read-only: a feature writing into its
+    input then raises instead of passing unnoticed)"""
     import numpy as np
     from menpo.image import Image, MaskedImage
     from menpo.shape import PointCloud, PointUndirectedGraph, LabelledPointUndirectedGraph
     px = np.array(spec["pixels"], dtype=spec["dtype"])
-    if spec["kind"] == "MaskedImage":
+    hist = spec.get("history")
+    masked = spec["kind"] == "MaskedImage"
+    if masked and hist == "converted":
+        img = Image(px)                                   # born unmasked, landmarks attached, then given a mask
+    elif (not masked) and hist == "converted":
+        img = MaskedImage(px, mask=np.ones(px.shape[1:], dtype=bool))
+    elif masked:
         img = MaskedImage(px, mask=np.array(spec["mask"], dtype=bool))
     else:
         img = Image(px)
@@ -231,14 +313,46 @@ def build_image(spec):
                 adj[a, b] = adj[b, a] = 1
             sh = LabelledPointUndirectedGraph.init_with_all_label(pts, adj)
         img.landmarks[g["key"]] = sh
+    if hist == "converted":
+        img = img.as_masked(mask=np.array(spec["mask"], dtype=bool)) if masked else img.as_unmasked()
+    elif hist == "copy":
+        img = img.copy()
+    elif hist == "pickled":
+        import pickle
+        img = pickle.loads(pickle.dumps(img))
+    if spec.get("readonly"):
+        img.pixels.setflags(write=False)
+        if masked:
+            img.mask.pixels.setflags(write=False)
+        for k in (img.landmarks.keys() if img.has_landmarks else []):
+            img.landmarks[k].points.setflags(write=False)
     return img
+
+
+def make_array(spec):
+    """the raw pixel array of a case spec in the requested memory layout ("layout": C | F | strided) and
+    writability ("readonly")"""
+    import numpy as np
+    arr = np.array(spec["pixels"], dtype=spec["dtype"])
+    lay = spec.get("layout", "C")
+    if lay == "F":
+        arr = np.asfortranarray(arr)
+    elif lay == "strided":
+        big = np.zeros(tuple(2 * k for k in arr.shape), dtype=arr.dtype)
+        view = big[tuple(slice(1, None, 2) for _ in arr.shape)]
+        view[...] = arr
+        arr = view
+    if spec.get("readonly"):
+        arr.setflags(write=False)
+    return arr
 
 
 def digest(img):
     """everything observable about an image's data, as comparable python values"""
     d = {"pixels": img.pixels.tobytes(), "dtype": str(img.pixels.dtype), "shape": tuple(img.pixels.shape)}
     if hasattr(img, "mask"):
-        d["mask"] = img.mask.mask.tobytes()
+        m = img.mask
+        d["mask"] = (m.mask if hasattr(m, "mask") else m).tobytes()      # BooleanImage.mask is the array itself
     d["lms"] = lms_state(img)
     return d
 
@@ -265,7 +379,7 @@ def min_size(name, params):
         return 2
     if name == "syn_window":
         return 4
-    return 1
+    return 1          # syn_resample, no_op, gaussian_filter, sum_channels, the normalisers
 
 
 def gen_feature(rng, pool):
@@ -315,10 +429,20 @@ WRAP_POOL = ["gradient", "gaussian_filter", "igo", "double_igo", "es", "daisy", 
              "syn_subsample", "syn_crop", "syn_upsample", "syn_window"]
 
 
+def gen_options(rng):
+    """memory layout of the raw array, writability, previous life of the image / the feature"""
+    return {"layout": rng.choice(["C", "C", "F", "strided"]), "readonly": rng.random() < 0.3,
+            "history": rng.choice([None, None, "copy", "converted", "pickled", "called_before"])}
+
+
 def gen_wrapper_spec(rng, pool=WRAP_POOL):
     name, params = gen_feature(rng, pool)
-    lo = max(min_size(name, params), 2)
+    lo = min_size(name, params)
+    if lo < 2 and rng.random() < 0.7:
+        lo = 2                                             # otherwise: images one pixel wide / high
     h, w = lo + rng.randint(0, 9), lo + rng.randint(0, 9)
+    if lo == 1:
+        h, w = rng.choice([(1, w), (h, 1), (1, 1), (h, w)])
     if name == "daisy" and rng.random() < 0.15:
         h = lo                                         # output extent 1: the degenerate mask axis
     c = rng.randint(1, 4)
@@ -329,11 +453,96 @@ def gen_wrapper_spec(rng, pool=WRAP_POOL):
         if name in NORMALISERS:
             params["error_on_divide_by_zero"] = True
     kind = rng.choice(["Image", "MaskedImage", "MaskedImage"])
-    return {"feature": name, "params": params, "kind": kind, "dtype": rng.choice(["float64", "float64", "float32"]),
+    spec = {"feature": name, "params": params, "kind": kind, "dtype": rng.choice(["float64", "float64", "float32"]),
             "pixels": gen_pixels(rng, c, h, w, flavour),
             "mask": gen_mask(rng, h, w, rng.choice(["random", "random", "block", "all-true", "all-false"]))
             if kind == "MaskedImage" else None,
             "lms": gen_lms(rng, h, w)}
+    spec.update(gen_options(rng))
+    return spec
+
+
+VOLUME_POOL = ["gradient", "gradient", "gaussian_filter", "no_op", "normalize_std", "normalize_norm", "normalize_var",
+               "syn_subsample3", "syn_subsample3", "igo", "es"]
+
+
+def gen_volume_spec(rng):
+    """3-D images (C, Z, Y, X): the features that accept them, the size-changing decorator branch in three
+    dimensions, and the features that refuse them (igo / es: ValueError in both conventions)"""
+    name = rng.choice(VOLUME_POOL)
+    params = {}
+    if name == "gaussian_filter":
+        params = {"sigma": rng.choice([0.5, 1.0])}
+    elif name in ("normalize_std", "normalize_norm", "normalize_var"):
+        params = {"mode": rng.choice(["all", "per_channel"]), "error_on_divide_by_zero": True}
+    elif name == "syn_subsample3":
+        params = {"sz": rng.randint(1, 2), "sy": rng.randint(1, 3), "sx": rng.randint(1, 2)}
+        if params["sz"] == params["sy"] == params["sx"] == 1:
+            params["sy"] = 2
+    d, h, w = rng.randint(2, 5), rng.randint(2, 5), rng.randint(2, 4)
+    c = rng.randint(1, 2)
+    kind = rng.choice(["Image", "MaskedImage", "MaskedImage"])
+    px = [[[[dy(rng) for _ in range(w)] for _ in range(h)] for _ in range(d)] for _ in range(c)]
+    mask = [[[rng.random() < 0.6 for _ in range(w)] for _ in range(h)] for _ in range(d)] if kind == "MaskedImage" else None
+    lms = []
+    for g in range(rng.choice([0, 1, 2])):
+        pts = [[rng.randint(0, 4 * (d - 1)) / 4.0, rng.randint(0, 4 * (h - 1)) / 4.0, rng.randint(0, 4 * (w - 1)) / 4.0]
+               for _ in range(rng.randint(1, 4))]
+        lms.append({"key": "g%d" % g, "cls": "PointCloud", "points": pts})
+    spec = {"feature": name, "params": params, "kind": kind, "dtype": rng.choice(["float64", "float64", "float32"]),
+            "pixels": px, "mask": mask, "lms": lms}
+    spec.update(gen_options(rng))
+    return spec
+
+
+_PAIRS = {}
+
+
+def extent_pairs(lo=2, hi=64):
+    """(old, new) extent pairs by what the binary64 chain of `resize` does with them, enumerated exactly:
+    over / under : float(old) * (float(new) / float(old)) lands above / below the integer `new`
+    tie          : some new index is sampled exactly half-way between two old indices
+    """
+    if not _PAIRS:
+        over, under, tie = [], [], []
+        for o in range(lo, hi + 1):
+            for n in range(lo, hi + 1):
+                if n == o:
+                    continue
+                t = float(o) * (float(n) / float(o))
+                if t > n:
+                    over.append((o, n))
+                elif t < n:
+                    under.append((o, n))
+                if any((2 * i * (o - 1) + (n - 1)) % (2 * (n - 1)) == 0 for i in range(1, n - 1)):
+                    tie.append((o, n))
+        _PAIRS.update(over=over, under=under, tie=tie)
+    return _PAIRS
+
+
+def gen_sweep_spec(rng, cls):
+    """extent sweep: the synthetic index-resampling feature (real @ndfeature) on a small image whose one axis goes
+    through an (old, new) extent pair of class `cls` in {over, under, tie, one, random}"""
+    if cls in ("over", "under", "tie"):
+        o, n = rng.choice(extent_pairs()[cls])
+    elif cls == "one":
+        o, n = rng.choice([(1, rng.randint(1, 6)), (rng.randint(2, 9), 1), (1, 1), (2, 1), (1, 2)])
+    else:
+        o, n = rng.randint(2, 40), rng.randint(2, 40)
+    o2 = rng.randint(2, 4)
+    n2 = o2 if rng.random() < 0.5 else rng.choice([k for k in (1, 2, 3, 4, 5, 7) if k != o2 and (k > 1 or cls == "one")])
+    if (o, o2) == (n, n2):
+        n2 = o2 + 1
+    axis = rng.randrange(2)
+    (h, w), (nh, nw) = ((o, o2), (n, n2)) if axis == 0 else ((o2, o), (n2, n))
+    c = rng.randint(1, 2)
+    kind = rng.choice(["MaskedImage", "MaskedImage", "MaskedImage", "Image"])
+    return {"feature": "syn_resample", "params": {"nh": nh, "nw": nw}, "kind": kind,
+            "dtype": rng.choice(["float64", "float64", "float32"]),
+            "pixels": gen_pixels(rng, c, h, w, "random"),
+            "mask": gen_mask(rng, h, w, rng.choice(["random", "random", "random", "block", "all-true"]))
+            if kind == "MaskedImage" else None,
+            "lms": gen_lms(rng, h, w), "sweep": cls}
 
 
 def gen_normaliser_spec(rng, zero=None):
@@ -341,7 +550,7 @@ def gen_normaliser_spec(rng, zero=None):
     name = rng.choice(["normalize_std", "normalize_norm", "normalize_var", "normalize", "normalize"])
     mode = rng.choice(["all", "per_channel"])
     c = rng.randint(1, 4)
-    h, w = rng.randint(1, 6), rng.randint(2, 6)
+    h, w = rng.randint(1, 6), rng.randint(1, 6)
     flavour = "random"
     if zero == "all":
         flavour = "constant"
@@ -364,17 +573,32 @@ def gen_normaliser_spec(rng, zero=None):
             flavour = "random"
     mask = None
     if kind == "MaskedImage":
-        mask = gen_mask(rng, h, w, rng.choice(["random", "block", "all-true"]))
-        if sum(map(sum, mask)) < 2:
+        mask = gen_mask(rng, h, w, rng.choice(["random", "block", "all-true", "one"]))
+        if sum(map(sum, mask)) < 1:
             mask = [[True] * w for _ in range(h)]
-    return {"feature": name, "params": params, "kind": kind, "dtype": rng.choice(["float64", "float64", "float32"]),
-            "pixels": gen_pixels(rng, c, h, w, flavour), "mask": mask, "lms": gen_lms(rng, max(h, 2), w)}
+    dtype = rng.choice(["float64", "float64", "float32", "float64", "int64", "int32", "uint8", "int16"])
+    px = gen_pixels(rng, c, h, w, flavour)
+    if not dtype.startswith("float"):
+        # integer pixels (the normalisers promote to float64); uint8 needs non-negative values
+        px = [[[float(abs(int(v * 8)) % 200 if dtype == "uint8" else int(v * 8)) for v in row] for row in ch] for ch in px]
+    spec = {"feature": name, "params": params, "kind": kind, "dtype": dtype,
+            "pixels": px, "mask": mask, "lms": gen_lms(rng, max(h, 2), max(w, 2))}
+    spec.update(gen_options(rng))
+    if spec["history"] == "called_before":
+        spec["history"] = None
+    return spec
 
 
 # ------------------------------------------------------------------------------- oracle helpers
 
 def tol_of(dtype):
-    return 1e-9 if dtype == "float64" else 2e-4
+    return 2e-4 if dtype == "float32" else 1e-9          # integer pixels are promoted to float64
+
+
+def agree_tol(spec):
+    """'the same values' for the two calling conventions: identical up to the summation order of reductions, which
+    may differ between a contiguous image buffer and a Fortran-ordered / strided raw array (float32: ~1e-7)"""
+    return 1e-6 if spec["dtype"] == "float32" and spec.get("layout", "C") != "C" else 1e-12
 
 
 def arr_close(a, b, tol):
@@ -390,12 +614,10 @@ def arr_close(a, b, tol):
 
 
 def mask_window_ok(old, new):
-    """'mask rescaled to the new size', convention-free: wherever the old mask is constant on the whole
-    neighbourhood that any reasonable resampling convention (index-based, extent-based by centres or corners, +-1/2 pixel) could
-    sample from, the new mask must have that value.  Returns (ok, first offending pixel)."""
-    import numpy as np
-    H, W = old.shape
-    h, w = new.shape
+    """'mask rescaled to the new size', convention-free and for any number of dimensions: wherever the old mask is
+    constant on the whole neighbourhood that any reasonable resampling convention (index-based, extent-based by centres
+    or corners, +-1/2 pixel) could sample from, the new mask must have that value.  Returns (ok, first offending pixel)."""
+    import itertools
 
     def window(i, n_new, n_old):
         if n_new <= 1 or n_old <= 1:
@@ -406,15 +628,13 @@ def mask_window_ok(old, new):
         lo = int(math.floor(min(p, q, r) - 0.5))
         hi = int(math.ceil(max(p, q, r) + 0.5))
         return max(lo, 0), min(hi, n_old - 1)
-    for i in range(h):
-        r0, r1 = window(i, h, H)
-        for j in range(w):
-            c0, c1 = window(j, w, W)
-            blk = old[r0:r1 + 1, c0:c1 + 1]
-            if blk.all() and not new[i, j]:
-                return False, (i, j)
-            if (not blk.any()) and new[i, j]:
-                return False, (i, j)
+    wins = [[window(i, n_new, n_old) for i in range(n_new)] for n_new, n_old in zip(new.shape, old.shape)]
+    for idx in itertools.product(*[range(k) for k in new.shape]):
+        blk = old[tuple(slice(wins[a][i][0], wins[a][i][1] + 1) for a, i in enumerate(idx))]
+        if blk.all() and not new[idx]:
+            return False, idx
+        if (not blk.any()) and new[idx]:
+            return False, idx
     return True, None
 
 
@@ -537,9 +757,12 @@ def check_annotations(run, spec, img, out, site, rp, model=True, mask_content=Tr
     if not model:
         return
     intern = {}
-    bits = [int(b) for row in (spec["mask"] or []) for b in row]
-    args = "%d 2 %d %d %d %d %d %s %s" % (int(masked), old_shape[0], old_shape[1], new_shape[0], new_shape[1],
-                                          len(bits), " ".join(map(str, bits)), fmt_lms_for_model(spec["lms"], intern))
+    if len(new_shape) != len(old_shape):
+        return
+    bits = [int(b) for b in np.array(spec["mask"], dtype=bool).ravel()] if spec["mask"] is not None else []
+    args = "%d %d %s %s %d %s %s" % (int(masked), len(old_shape), " ".join(map(str, old_shape)),
+                                     " ".join(map(str, new_shape)), len(bits), " ".join(map(str, bits)),
+                                     fmt_lms_for_model(spec["lms"], intern))
     got_pts = result_points(out)
     got_mask = [int(b) for b in out.mask.mask.ravel()] if masked else []
 
@@ -566,6 +789,167 @@ def check_annotations(run, spec, img, out, site, rp, model=True, mask_content=Tr
     run.ask("rebuild", args, handler, rp)
 
 
+def grad_frac(ch):
+    """np.gradient(edge_order=1) of one 2-D channel in exact arithmetic: (d/daxis0, d/daxis1) as lists of rows"""
+    h, w = len(ch), len(ch[0])
+
+    def g1(x):
+        n = len(x)
+        return [x[1] - x[0] if i == 0 else (x[n - 1] - x[n - 2] if i == n - 1 else (x[i + 1] - x[i - 1]) / 2)
+                for i in range(n)]
+    gx = [g1(row) for row in ch]
+    cols = [g1([ch[i][j] for i in range(h)]) for j in range(w)]
+    gy = [[cols[j][i] for j in range(w)] for i in range(h)]
+    return gy, gx
+
+
+def gaussian_kernel(sigma):
+    """the weights scipy's gaussian_filter correlates with along one axis (public API only: the response to a unit
+    impulse): (w0, [w1, w2, …]); None when the axis is skipped"""
+    import numpy as np
+    from scipy.ndimage import gaussian_filter1d
+    if sigma <= 1e-15:
+        return None
+    r = int(4.0 * float(sigma) + 0.5)
+    imp = np.zeros(2 * r + 1)
+    imp[r] = 1.0
+    k = gaussian_filter1d(imp, sigma, mode="constant")
+    return float(k[r]), [float(v) for v in k[r + 1:]], [float(v) for v in k[:r][::-1]]
+
+
+KERNEL_FEATURES = ("gradient", "igo", "double_igo", "es", "gaussian_filter", "no_op")
+
+
+def kernel_model_query(run, spec, out, rp):
+    """the numerical kernels inside the model: same exact input to the driver, values compared"""
+    import numpy as np
+    ctx = run.ctx
+    name, params = spec["feature"], spec["params"]
+    px = spec["pixels"]
+    c, h, w = len(px), len(px[0]), len(px[0][0])
+    tol = tol_of(spec["dtype"])
+    data_s = "%d %d %d %s" % (c, h, w, " ".join(fq(v) for ch in px for row in ch for v in row))
+    got = np.asarray(out.pixels, dtype=float).ravel().tolist()
+
+    def values_handler(rep, skip=0):
+        t = rep.split()
+        if t[0] != "ok":
+            return "model %r, implementation returned values" % rep[:60]
+        vals = t[1 + skip:]
+        if len(vals) != len(got):
+            return "model returns %d values, implementation %d" % (len(vals), len(got))
+        big = max([1.0] + [abs(float(F(v))) for v in vals if v != "nan"])
+        for k, (mv, gv) in enumerate(zip(vals, got)):
+            if mv == "nan":
+                if not math.isnan(gv):
+                    return "value %d: model 0/0 (nan), implementation %r" % (k, gv)
+            elif not abs(float(F(mv)) - gv) <= tol * (1 + big):
+                return "value %d: model %r implementation %r" % (k, float(F(mv)), gv)
+        return None
+
+    ctx.count("kernel-model:" + name)
+    if name == "gradient":
+        def handler(rep):
+            t = rep.split()
+            if t[:2] == ["ok", "F"] and t[2] != "1":
+                return "the N-D (flat) and the 2-D gradient of the model disagree"
+            return values_handler(rep, skip=3)
+        run.ask("grad", "0 " + data_s, handler, rp)
+    elif name == "no_op":
+        def handler(rep):
+            t = rep.split()
+            if t[:3] != ["ok", "1", "1"]:
+                return "buffer model: %r" % rep[:40]
+            return values_handler(rep, skip=2)
+        run.ask("noops", "%d %d %s" % (c, h * w, " ".join(fq(v) for ch in px for row in ch for v in row)), handler, rp)
+    elif name in ("igo", "double_igo", "es"):
+        # the contract parameter: |g| as numpy's float64 square root of the exact g_y^2 + g_x^2
+        table = {}
+        for ch in px:
+            gy, gx = grad_frac([[F(v) for v in row] for row in ch])
+            for ry, rx in zip(gy, gx):
+                for a, b in zip(ry, rx):
+                    table[(a, b)] = math.sqrt(float(a * a + b * b))
+        # contract check: mag^2 = gy^2 + gx^2 to 1e-12 relative
+        for (a, b), m in table.items():
+            if not close(m * m, float(a * a + b * b), float(a * a + b * b), 1e-12):
+                raise common.Infra("sqrt contract fails numerically for (%s, %s)" % (a, b))
+        tab_s = "%d %s" % (len(table), " ".join("%s %s %s" % (fq(float(a)), fq(float(b)), fq(m)) for (a, b), m in table.items()))
+        if name == "es":
+            run.ask("es", data_s + " " + tab_s, values_handler, rp)
+        else:
+            dbl = name == "double_igo" or bool(params.get("double_angles"))
+            run.ask("igo", "%d %s %s" % (int(dbl), data_s, tab_s), values_handler, rp)
+    elif name == "gaussian_filter":
+        sg = params["sigma"]
+        sig = list(sg) if isinstance(sg, (list, tuple)) else [sg, sg]
+        ks = []
+        for sgm in sig:
+            k = gaussian_kernel(sgm)
+            if k is None:
+                ks.append("0")
+                continue
+            w0, right, left = k
+            if right != left:
+                return ctx.mismatch("gauss", "scipy's gaussian kernel for sigma=%r is not symmetric: %r vs %r" % (sgm, left, right), rp)
+            if not abs(w0 + 2 * sum(right) - 1.0) <= 1e-12:
+                return ctx.mismatch("gauss", "scipy's gaussian kernel for sigma=%r sums to %r" % (sgm, w0 + 2 * sum(right)), rp)
+            ks.append("1 %s %d %s" % (fq(w0), len(right), " ".join(fq(v) for v in right)))
+
+        def handler(rep):
+            t = rep.split()
+            if t[:2] != ["ok", "T"]:
+                return "model %r" % rep[:60]
+            if t[t.index("F") + 1] != "1":
+                return "the N-D (flat) and the 2-D gaussian filter of the model disagree"
+            iv = t.index("V")
+            return values_handler("ok " + " ".join(t[iv + 1:]))
+        run.ask("gauss", data_s + " " + " ".join(ks), handler, rp)
+
+
+def volume_gradient_query(run, spec, out, rp):
+    """gradient of a 3-D image against the N-D (flat) gradient of the model"""
+    import numpy as np
+    arr = np.array(spec["pixels"], dtype=float)
+    tol = tol_of(spec["dtype"])
+    got = np.asarray(out.pixels, dtype=float).ravel().tolist()
+    shape = arr.shape[1:]
+    run.ctx.count("kernel-model:gradient-3d")
+
+    def handler(rep):
+        t = rep.split()
+        if t[0] != "ok" or len(t) - 1 != len(got):
+            return "model %r (%d values), implementation %d values" % (rep[:40], len(t) - 1, len(got))
+        bad = [k for k, (mv, gv) in enumerate(zip(t[1:], got)) if not abs(float(F(mv)) - gv) <= tol * (1 + abs(gv))]
+        return None if not bad else "value %d: model %s implementation %r" % (bad[0], t[1 + bad[0]], got[bad[0]])
+    run.ask("gradnd", "%d %s %d %s" % (len(shape), " ".join(map(str, shape)), arr.shape[0],
+                                       " ".join(fq(float(v)) for v in arr.ravel())), handler, rp)
+
+
+def volume_gaussian_query(run, spec, out, rp):
+    """gaussian_filter of a 3-D image against the N-D (flat) filter of the model (same kernel along every axis)"""
+    import numpy as np
+    arr = np.array(spec["pixels"], dtype=float)
+    tol = tol_of(spec["dtype"])
+    got = np.asarray(out.pixels, dtype=float).ravel().tolist()
+    shape = arr.shape[1:]
+    k = gaussian_kernel(spec["params"]["sigma"])
+    if k is None or k[1] != k[2] or not abs(k[0] + 2 * sum(k[1]) - 1.0) <= 1e-12:
+        return run.ctx.mismatch("gaussnd", "scipy's gaussian kernel is not symmetric with unit sum: %r" % (k,), rp)
+    ks = "1 %s %d %s" % (fq(k[0]), len(k[1]), " ".join(fq(v) for v in k[1]))
+    run.ctx.count("kernel-model:gaussian_filter-3d")
+
+    def handler(rep):
+        t = rep.split()
+        if t[0] != "ok" or len(t) - 1 != len(got):
+            return "model %r (%d values), implementation %d values" % (rep[:40], len(t) - 1, len(got))
+        big = max([1.0] + [abs(v) for v in got])
+        bad = [i for i, (mv, gv) in enumerate(zip(t[1:], got)) if not abs(float(F(mv)) - gv) <= tol * (1 + big)]
+        return None if not bad else "value %d: model %r implementation %r" % (bad[0], float(F(t[1 + bad[0]])), got[bad[0]])
+    run.ask("gaussnd", "%d %s %d %s %s" % (len(shape), " ".join(map(str, shape)), arr.shape[0],
+                                         " ".join(fq(float(v)) for v in arr.ravel()), " ".join([ks] * len(shape))), handler, rp)
+
+
 def wrapper_case(run, spec, model=True):
     """one decorated feature on one image and on its raw array"""
     import numpy as np
@@ -574,9 +958,22 @@ def wrapper_case(run, spec, model=True):
     site = "C18/%s" % (name if name != "compose" else "compose")
     rp = {"spec": spec, "call": "harness.c18.apply_feature(%r, %r, harness.c18.build_image(spec))" % (name, params)}
     img = build_image(spec)
-    arr = np.array(spec["pixels"], dtype=spec["dtype"])
+    arr = make_array(spec)
     before_img, before_arr = digest(img), arr.tobytes()
-    nonconst = len(set(v for ch in spec["pixels"] for row in ch for v in row)) > 1
+    nonconst = len(np.unique(arr)) > 1
+    for opt in ("history", "layout", "readonly"):
+        if spec.get(opt):
+            ctx.count("%s:%s" % (opt, spec[opt]))
+    if arr.ndim != 3:
+        ctx.count("ndim:%d" % (arr.ndim - 1))
+    if spec.get("history") == "called_before":
+        # the feature has a previous life: it has just been used on another image of the same shape
+        other = dict(spec, pixels=(np.array(spec["pixels"]) * 2 + 1).tolist(), history=None, readonly=False)
+        try:
+            apply_feature(name, params, build_image(other))
+            apply_feature(name, params, make_array(other))
+        except Exception:  # noqa
+            pass
     ctx.case((name, json.dumps(spec, sort_keys=True)), nontrivial=nonconst and (bool(spec["lms"]) or spec["kind"] == "MaskedImage"),
              sample={"feature": name, "params": params, "kind": spec["kind"], "dtype": spec["dtype"],
                      "shape": list(arr.shape), "n_groups": len(spec["lms"])})
@@ -599,6 +996,11 @@ def wrapper_case(run, spec, model=True):
               "the input image (pixels / mask / landmarks) was modified by the call", rp)
     ctx.check(arr.tobytes() == before_arr, site + ".input", "array-modified",
               "the input array was modified by the call", rp)
+    for who, e in (("image", exc_img), ("array", exc_arr)):
+        if spec.get("readonly") and e is not None and "read-only" in str(e):
+            ctx.fail(site + ".input", "writes-read-only-input",
+                     "the feature tried to write into its read-only input %s: %s: %s" % (who, type(e).__name__, e), rp)
+            return
     if exc_img is not None or exc_arr is not None:
         below = [o for o in (out, out_arr) if o is not None and 0 in tuple(getattr(o, "pixels", o).shape)]
         if below:     # a composition shrank the image below the next feature's minimum size: outside the quantifier
@@ -606,6 +1008,24 @@ def wrapper_case(run, spec, model=True):
             return
         same = exc_img is not None and exc_arr is not None and type(exc_img) is type(exc_arr)
         ctx.count("raised:%s" % type(exc_img or exc_arr).__name__)
+        if model and same and name in ("gradient", "igo", "double_igo", "es") and arr.ndim == 3:
+            # the refusals of the gradient are inside the model: uint8 pixels (TypeError), fewer than two samples
+            # along an axis (np.gradient's ValueError); igo / es pass them on
+            want = {"TypeError": "err type", "ValueError": "err small"}.get(type(exc_img).__name__)
+            px = spec["pixels"]
+            ctx.count("kernel-model:%s-refusal" % name)
+
+            def handler(rep, want=want):
+                return None if rep == want else "model %r, implementation raised %s" % (rep[:40], type(exc_img).__name__)
+            run.ask("grad", "%d %d %d %d %s" % (int(spec["dtype"] == "uint8"), len(px), len(px[0]), len(px[0][0]),
+                                                " ".join(fq(v) for ch in px for row in ch for v in row)), handler, rp)
+        if model and same and name in ("igo", "es") and arr.ndim == 4:
+            ctx.count("kernel-model:%s-not-2d" % name)
+
+            def handler(rep):
+                return None if rep == "err not2d | err not2d" and type(exc_img).__name__ == "ValueError" else \
+                    "model %r, implementation raised %s" % (rep, type(exc_img).__name__)
+            run.ask("notwod", "%d" % (arr.ndim - 1), handler, rp)
         ctx.check(same, site + ".agree", "one-convention-raises",
                   "image call: %s; array call: %s" % (
                       "%s: %s" % (type(exc_img).__name__, exc_img) if exc_img is not None else "returned",
@@ -620,13 +1040,30 @@ def wrapper_case(run, spec, model=True):
         return
     masked_direct = name == "normalize" and spec["kind"] == "MaskedImage" and not all(map(all, spec["mask"]))
     if not masked_direct:
-        ctx.check(arr_close(out.pixels, out_arr, 1e-12), site + ".agree", "values-differ",
+        ctx.check(arr_close(out.pixels, out_arr, agree_tol(spec)), site + ".agree", "values-differ",
                   "feature(image).pixels differs from feature(image.pixels) (max abs diff %s)" % (
                       float(np.nanmax(np.abs(np.asarray(out.pixels, float) - np.asarray(out_arr, float))))
                       if out.pixels.shape == out_arr.shape else "shape %r vs %r" % (out.pixels.shape, out_arr.shape)), rp)
         ctx.check(out.pixels.dtype == out_arr.dtype, site + ".agree", "dtype-differs",
                   "dtype %s vs %s" % (out.pixels.dtype, out_arr.dtype), rp)
     ctx.count("size:" + ("changed" if tuple(out.shape) != tuple(img.shape) else "kept"))
+    if model and name in KERNEL_FEATURES and arr.ndim == 3 and arr.size <= 200:
+        kernel_model_query(run, spec, out, rp)
+    elif model and name == "gradient" and arr.ndim == 4 and arr.size <= 200:
+        volume_gradient_query(run, spec, out, rp)
+    elif model and name == "gaussian_filter" and arr.ndim == 4 and arr.size <= 250:
+        volume_gaussian_query(run, spec, out, rp)
+    elif model and name == "daisy":
+        # the size law of the descriptor grid (the descriptor values stay abstract)
+        got_shape = [int(v) for v in out.pixels.shape]
+
+        def handler(rep, got_shape=got_shape):
+            return None if rep.split() == ["ok"] + [str(v) for v in got_shape] else \
+                "daisy output shape: model %r implementation %r" % (rep, got_shape)
+        ctx.count("kernel-model:daisy-shape")
+        run.ask("daisyshape", "%d %d %d %d %d %d %d" % (arr.shape[1], arr.shape[2], params["radius"], params["step"],
+                                                       params["rings"], params["histograms"], params["orientations"]),
+                handler, rp)
     if name == "syn_window":
         check_window(run, spec, img, out, site, rp, model)
     elif name == "compose":
@@ -725,9 +1162,12 @@ def normaliser_case(run, spec, model=True):
     rp = {"spec": spec, "call": "harness.c18.apply_feature(%r, %r, harness.c18.build_image(spec))" % (name, params)}
     tol = tol_of(spec["dtype"])
     img = build_image(spec)
-    arr = np.array(spec["pixels"], dtype=spec["dtype"])
+    arr = make_array(spec)
     c = arr.shape[0]
     before = digest(img)
+    for opt in ("history", "layout", "readonly"):
+        if spec.get(opt):
+            ctx.count("%s:%s" % (opt, spec[opt]))
     # the data the statistics are taken over: every pixel, or the masked pixels when `normalize` itself gets a MaskedImage
     partial_mask = spec["kind"] == "MaskedImage" and not all(map(all, spec["mask"]))
     on_masked = name == "normalize" and partial_mask
@@ -812,7 +1252,7 @@ def normaliser_case(run, spec, model=True):
         # raw-array convention
         ka, out_a = call_outcome(lambda: apply_feature(name, params, arr))
         if not on_masked:
-            ctx.check(ka == "ok" and arr_close(out_a, out.pixels, 1e-12), site + ".agree", "values-differ",
+            ctx.check(ka == "ok" and arr_close(out_a, out.pixels, agree_tol(spec)), site + ".agree", "values-differ",
                       "feature(image).pixels differs from feature(image.pixels)%s" % ("" if ka == "ok" else " (array call raised %s)" % ka), rp)
         else:
             ctx.check(bool(np.all(outside == 0)), site + ".masked", "outside-mask-not-zero",
@@ -889,6 +1329,132 @@ def normaliser_case(run, spec, model=True):
         run.ask("norms " + statkind, "%s %d 1 %d %d %s%s" % (mode, int(err), c, n, data_s, sc), frame, rp)
 
 
+# ------------------------------------------------------------------------------- regenerated effect table
+
+TABLE_FEATURES = [("gradient", {}), ("gaussian_filter", {"sigma": 1.0}), ("igo", {"double_angles": False}),
+                  ("double_igo", {}), ("es", {}),
+                  ("daisy", {"step": 2, "radius": 2, "rings": 1, "histograms": 2, "orientations": 3, "normalization": "l1"}),
+                  ("no_op", {}), ("normalize", {"mode": "per_channel", "error_on_divide_by_zero": True, "scale": None}),
+                  ("normalize_std", {"mode": "all", "error_on_divide_by_zero": True}),
+                  ("normalize_norm", {"mode": "per_channel", "error_on_divide_by_zero": False}),
+                  ("normalize_var", {"mode": "all", "error_on_divide_by_zero": False}), ("sum_channels", {"channels": None})]
+TABLE_COMPOSITIONS = [("gradient", "normalize_std"), ("daisy", "gaussian_filter"), ("igo", "daisy"), ("no_op", "es"),
+                      ("normalize", "double_igo"), ("gaussian_filter", "normalize_norm"), ("es", "gradient")]
+
+
+def table_image(kind):
+    """a fixed small image with a mask and two landmark groups; every buffer the caller owns is made READ-ONLY, so a
+    feature writing into its input raises instead of passing unnoticed"""
+    rng = common.random.Random(1802)
+    spec = {"kind": kind, "dtype": "float64", "pixels": gen_pixels(rng, 2, 12, 11, "random"),
+            "mask": gen_mask(rng, 12, 11, "random") if kind == "MaskedImage" else None,
+            "lms": [{"key": "g0", "cls": "PointCloud", "points": [[1.0, 2.5], [7.25, 3.0], [10.0, 9.5]]},
+                    {"key": "g1", "cls": "PointUndirectedGraph", "points": [[0.0, 0.0], [11.0, 10.0]]}]}
+    img = build_image(spec)
+    img.pixels.setflags(write=False)
+    if kind == "MaskedImage":
+        img.mask.pixels.setflags(write=False)
+    for k in img.landmarks.keys():
+        img.landmarks[k].points.setflags(write=False)
+    return img
+
+
+def feature_table():
+    """rows (feature, input kind, returned, output kind, attribute writes, shares pixels/mask/landmarks, keys kept),
+    measured on live images through the public API"""
+    import warnings
+    import numpy as np
+    from menpo.image import Image, MaskedImage
+    have, _ = available_features()
+    param = dict(TABLE_FEATURES)
+
+    def kind_of(o):
+        return "masked" if type(o) is MaskedImage else ("plain" if type(o) is Image else "other")
+    rows = []
+    todo = [(n, [(n, param[n])]) for n, _ in TABLE_FEATURES if n in have]
+    todo += [("%s>%s" % (a, b), [(a, param[a]), (b, param[b])]) for a, b in TABLE_COMPOSITIONS if a in have and b in have]
+    for label, steps in todo:
+        for kind in ("Image", "MaskedImage"):
+            img = table_image(kind)
+            holder = {}
+
+            def act():
+                x = img
+                for n, p in steps:
+                    x = apply_feature(n, p, x)
+                holder["out"] = x
+            with warnings.catch_warnings():
+                warnings.simplefilter("ignore")
+                writes = common.attr_writes(img, act)
+            out = holder.get("out")
+            row = {"feature": label, "inKind": kind_of(img), "returned": out is not None and hasattr(out, "pixels"),
+                   "outKind": "other", "writes": writes, "sharesPixels": False, "sharesMask": False,
+                   "sharesLandmarks": False, "keysKept": False}
+            if row["returned"]:
+                row["outKind"] = kind_of(out)
+                row["sharesPixels"] = bool(np.shares_memory(out.pixels, img.pixels))
+                if hasattr(out, "mask") and hasattr(img, "mask"):
+                    row["sharesMask"] = bool(np.shares_memory(out.mask.pixels, img.mask.pixels))
+                ok = out.has_landmarks and list(out.landmarks.keys()) == list(img.landmarks.keys())
+                if ok:
+                    ok = all(type(out.landmarks[k]) is type(img.landmarks[k]) for k in img.landmarks.keys())
+                    row["sharesLandmarks"] = any(bool(np.shares_memory(out.landmarks[k].points, img.landmarks[k].points))
+                                                 for k in img.landmarks.keys())
+                row["keysKept"] = bool(ok)
+            rows.append(row)
+    return rows
+
+
+def lean_row(r):
+    b = lambda v: "true" if v else "false"  # noqa
+    return '⟨"%s", .%s, %s, .%s, [%s], %s, %s, %s, %s⟩' % (
+        r["feature"], r["inKind"], b(r["returned"]), r["outKind"], ", ".join('"%s"' % a for a in r["writes"]),
+        b(r["sharesPixels"]), b(r["sharesMask"]), b(r["sharesLandmarks"]), b(r["keysKept"]))
+
+
+def live_exported():
+    """names of the decorated features menpo.feature exports on this tree (functions carrying `__wrapped__`, and
+    partial applications of such)"""
+    import functools
+    import menpo.feature as mf
+    out = []
+    for n in sorted(dir(mf)):
+        o = getattr(mf, n)
+        if n.startswith("_") or not callable(o):
+            continue
+        if hasattr(o, "__wrapped__") or (isinstance(o, functools.partial) and hasattr(o.func, "__wrapped__")):
+            out.append(n)
+    return out
+
+
+def generated(ctx):
+    rows = feature_table()
+    live = live_exported()
+    gen = ("/- REGENERATED by harness/c18.py from the live menpo features on every run: one row per exported feature (and per\n"
+           "   listed composition) and image kind, measured on an image whose buffers are read-only.  Do not edit. -/\n"
+           "import MenpoModel.Core.C18Table\n\nnamespace MenpoModel.Generated.C18\nopen MenpoModel.C18\n\n"
+           "def featureRows : List FeatRow :=\n  [%s]\n\n"
+           "/-- the decorated features exported by menpo.feature on this tree -/\n"
+           "def liveExported : List String :=\n  [%s]\n\nend MenpoModel.Generated.C18\n" % (
+               ",\n   ".join(lean_row(r) for r in rows), ", ".join('"%s"' % n for n in live)))
+    ctx.notes["feature_effect_table_rows"] = len(rows)
+    ctx.notes["live_exported_features"] = live
+    ok = common.build_generated(ctx, {"MenpoModel/Generated/C18Table.lean": gen},
+                                ["MenpoModel.Generated.C18Table", "MenpoModel.GenProps.C18"], 0)
+    # the three obligations over the regenerated table are listed in THEOREMS (axiom-audited like every other theorem),
+    # so they are counted there and not a second time as generated obligations
+    ctx.notes["regenerated_obligations_among_theorems"] = [t for t in THEOREMS if ".GenProps." in t]
+    if not ok and ctx.broken_obligations:
+        bad = [r for r in rows if not (r["returned"] and r["outKind"] == r["inKind"] and not r["writes"] and r["keysKept"])]
+        ctx.broken_obligations[-1]["obligation"] = "MenpoModel.GenProps.C18.featureRows_ok / featureRows_cover / liveExported_known"
+        ctx.broken_obligations[-1]["live_exported"] = live
+        ctx.broken_obligations[-1]["offending_rows"] = bad[:10]
+        ctx.broken_obligations[-1]["expected"] = ("every exported feature measured on Image and MaskedImage; each call "
+                                                  "returns an image of the input's kind with the same landmark groups "
+                                                  "and writes no attribute of the input")
+    return ok
+
+
 def corpus_cases():
     """hand-minimised cases kept from earlier findings (run first on every run)"""
     ones = lambda c, h, w: [[[1.0] * w for _ in range(h)] for _ in range(c)]  # noqa
@@ -906,10 +1472,62 @@ def corpus_cases():
     return out
 
 
-def explore(run, n_wrap, n_norm, model=True):
+SWEEP = ["over"] * 4 + ["under"] * 2 + ["tie"] * 2 + ["one", "random"]
+
+
+def boolean_case(run, rng):
+    """BooleanImage inputs are outside the property's quantifier (Image and MaskedImage), except for one clause that
+    holds for every input: the feature must not modify it.  (Observed, not judged: `normalize` returns a BooleanImage —
+    the normalised values converted back to booleans —, the @ndfeature features a MaskedImage whose mask is the input;
+    gradient / igo / es / daisy raise TypeError on boolean pixels.)"""
+    import numpy as np
+    from menpo.image import BooleanImage
+    ctx = run.ctx
+    name, params = gen_feature(rng, ["normalize", "normalize_std", "normalize_norm", "normalize_var", "no_op",
+                                     "gaussian_filter", "gradient", "igo", "es", "sum_channels"])
+    if name in NORMALISERS:
+        params = dict(params, error_on_divide_by_zero=False)
+    h, w = rng.randint(2, 6), rng.randint(2, 6)
+    bits = gen_mask(rng, h, w, rng.choice(["random", "random", "block", "all-true", "one"]))
+    img = BooleanImage(np.array(bits, dtype=bool))
+    img.landmarks["g0"] = build_image({"kind": "Image", "dtype": "float64", "pixels": [[[0.0] * w] * h], "mask": None,
+                                       "lms": [{"key": "g0", "cls": "PointCloud", "points": [[0.0, 1.0]]}]}).landmarks["g0"]
+    before = digest(img)
+    rp = {"boolean_image": bits, "call": "menpo.feature.%s(BooleanImage(bits), **%r)" % (name, params)}
+    ctx.case(("boolean", name, json.dumps([bits, params], sort_keys=True)), nontrivial=False,
+             sample={"feature": name, "params": params, "kind": "BooleanImage", "shape": [h, w]})
+    kind, out = call_outcome(lambda: apply_feature(name, params, img))
+    ctx.count("boolean:%s->%s" % (name, type(out).__name__ if kind == "ok" else kind))
+    ctx.check(digest(img) == before, "C18/%s.input" % name, "image-modified",
+              "the input BooleanImage (pixels / landmarks) was modified by the call", rp)
+
+
+def typed_cases():
+    """pixel dtypes the features refuse: gradient / igo / es of a uint8 image raise TypeError in both conventions"""
+    out = []
+    for name, params in (("gradient", {}), ("igo", {"double_angles": False}), ("es", {})):
+        for kind in ("Image", "MaskedImage"):
+            out.append({"feature": name, "params": params, "kind": kind, "dtype": "uint8",
+                        "pixels": [[[1.0, 2.0, 4.0], [7.0, 3.0, 0.0], [5.0, 5.0, 9.0]]],
+                        "mask": [[True, False, True], [True, True, True], [False, True, True]] if kind == "MaskedImage" else None,
+                        "lms": [{"key": "g0", "cls": "PointCloud", "points": [[0.5, 1.0], [2.0, 2.0]]}]})
+    return out
+
+
+def explore(run, n_wrap, n_norm, n_sweep=0, model=True):
     rng = run.ctx.rng
     for spec in corpus_cases():
         normaliser_case(run, spec, model)
+    for i in range(n_sweep):
+        spec = gen_sweep_spec(rng, SWEEP[i % len(SWEEP)])
+        run.ctx.count("sweep:" + spec["sweep"])
+        wrapper_case(run, spec, model)
+    for spec in typed_cases():
+        wrapper_case(run, spec, model)
+    for _ in range(n_wrap // 8):
+        wrapper_case(run, gen_volume_spec(rng), model)
+    for _ in range(n_wrap // 16):
+        boolean_case(run, rng)
     for _ in range(n_wrap):
         wrapper_case(run, gen_wrapper_spec(rng), model)
     for i in range(n_norm):
@@ -928,17 +1546,24 @@ def search(ctx):
                                                "gradient", "igo", "es", "gaussian_filter", "no_op", "sum_channels"]), model=False)
     for i in range(400):
         normaliser_case(r, gen_normaliser_spec(rng, [None, "all", "channel"][i % 3]), model=False)
+    for i in range(400):
+        wrapper_case(r, gen_sweep_spec(rng, SWEEP[i % len(SWEEP)]), model=False)
     ctx.searched += ctx.evaluations - before
     return bool(ctx.failures)
 
 
 def run(ctx):
-    common.prepare_lean(ctx, PROP, IMPORTS, THEOREMS)
+    if generated(ctx):
+        common.prepare_lean(ctx, PROP, IMPORTS, THEOREMS, targets=TARGETS)
+    else:
+        # the measured effect table no longer satisfies its obligations: audit what still builds, then let the oracle
+        # look for an input on which the changed behaviour shows
+        common.prepare_lean(ctx, PROP, IMPORTS[:1], [t for t in THEOREMS if ".GenProps." not in t])
     have, missing = available_features()
     ctx.notes["features_covered"] = have + ["compose", "syn_subsample", "syn_crop", "syn_upsample", "syn_window"]
     ctx.notes["features_not_importable"] = missing
     r = Run(ctx)
-    explore(r, ctx.n(500, 6000), ctx.n(300, 4000))
+    explore(r, ctx.n(500, 6000), ctx.n(300, 4000), ctx.n(260, 2600))
     r.settle()
     return ctx.finish(search)
 
@@ -955,10 +1580,11 @@ def replay(ctx, path):
         print("no recorded case: re-running the quick exploration with the recorded seed %r" % data.get("seed"))
         return run(common.Ctx(PROP, "quick", int(data.get("seed", 0))))
     print("re-running the recorded case: %s %r on a %s %s" % (spec["feature"], spec["params"], spec["kind"], spec["dtype"]))
-    common.prepare_lean(ctx, PROP, IMPORTS, THEOREMS)
+    common.prepare_lean(ctx, PROP, IMPORTS[:1], [t for t in THEOREMS if ".GenProps." not in t])
     r = Run(ctx)
+    flat2d = not isinstance(spec["pixels"][0][0][0], list)
     if spec["feature"] in NORMALISERS and "mode" in spec["params"] and spec["params"].get("error_on_divide_by_zero") is not None \
-            and len(spec["pixels"][0]) * len(spec["pixels"][0][0]) <= 64:
+            and flat2d and len(spec["pixels"][0]) * len(spec["pixels"][0][0]) <= 64:
         normaliser_case(r, spec)
     else:
         wrapper_case(r, spec)
